@@ -20,6 +20,8 @@ func main() {
 		os.Exit(runChild(os.Args[2]))
 	case "trace":
 		os.Exit(traceMain(os.Args[2]))
+	case "run":
+		os.Exit(orchMain(os.Args[2:]))
 	default:
 		fmt.Fprintln(os.Stderr, "unknown role", os.Args[1])
 		os.Exit(2)
